@@ -18,7 +18,12 @@ out = ["# Seeded changes and the checks that catch them", "",
        "| change | what it does | needs to manifest | caught by (rc: mechanism keys) |", "|---|---|---|---|"]
 for name, summ, needs, best in rows:
     cell = "; ".join(f"{k} rc={rc}: {', '.join(keys[:3])}" for k, rc, keys in best) or "n/a"
+    neut = json.load(open(os.path.join(V, "seeded", name, "meta.json"))).get("neutralised_by_fix")
+    if neut:
+        before = "; ".join(f"{k} rc={v.get('rc')}" for k, v in (neut.get("check_results_before_the_fix") or {}).items())
+        cell = f"**neutralised by fix {neut['commit']}** (harmless on the current tree; before the fix: {before})"
     out.append(f"| {name} | {summ} | {needs} | {cell} |")
 open(os.path.join(V, "seeded", "CATCH_MATRIX.md"), "w").write("\n".join(out) + "\n")
 caught = sum(1 for _, _, _, b in rows if any(rc == 1 for _, rc, _ in b))
-print(f"{len(rows)} kept changes, {caught} caught by at least one listed check")
+neutral = sum(1 for n_, _, _, _ in rows if json.load(open(os.path.join(V, "seeded", n_, "meta.json"))).get("neutralised_by_fix"))
+print(f"{len(rows)} kept changes, {caught} caught by at least one listed check, {neutral} neutralised by a later fix: commit")
